@@ -121,7 +121,10 @@ pub fn c14_extra(_args: &[String]) {
     let mut sent = 0;
     let ids = |k: &str| (rid_of(mixed.last_reload_id()), rid_of(main.load::<Leaf<0>>(k).unwrap().last_reload_id()));
     // editing what the helper thread / the other cache read must not reload `mix`
-    for (s, cache, id, expect_mix) in [(&src, main, "h", false), (&src2, other, "f", false), (&src, main, "m", true), (&src, main, "z", true)] {
+    // the main cache has its own asset with the id and type of the one `mix` looked up in the other cache
+    src.put("f", "x", b"v1");
+    let _ = main.load::<Leaf<0>>("f").expect("main's own f");
+    for (s, cache, id, expect_mix) in [(&src, main, "h", false), (&src2, other, "f", false), (&src, main, "f", false), (&src, main, "m", true), (&src, main, "z", true)] {
         rep.cases += 1;
         let before = rid_of(mixed.last_reload_id());
         s.put(id, "x", b"v2");
